@@ -208,6 +208,7 @@ class Exec:
         self.n_feas = 0
         self.const_cache = {}
         self.max_paths = 4000
+        self.max_depth = 200      # nested calls
         self.max_steps = 400      # basic blocks per function invocation (loops): exceeding it is a refusal, never a pass
         self.deadline = None      # self.clock() value after which the enumeration gives up (reported as inconclusive, never as a pass)
         self.clock = time.time    # sweeps in worker processes use time.process_time: a budget in CPU time does not depend on the load
@@ -760,7 +761,7 @@ class Exec:
     # ------------------------------------------------------------ execution
     def run(self, fn, args, path, depth=0):
         """generator of Outcomes for calling fn with args on path"""
-        if depth > 200:
+        if depth > self.max_depth:
             raise Unsupported("call depth")
         env = {}
         for (l, _), a in zip(fn.args, args):
